@@ -1,6 +1,6 @@
 // ---- /verif/kani/kem.rs: appended to src/kem.rs in the Kani scratch copy ----
 #[cfg(kani)]
-mod verif_kani {
+pub(crate) mod verif_kani {
     // the crate is no_std: names needed by Kani's generated concrete-playback tests
     extern crate std as verif_std;
     #[allow(unused_imports)] use verif_std::{vec, vec::Vec};
@@ -38,7 +38,7 @@ mod verif_kani {
     // ---- C18 / C03: gen_keypair depends only on the bytes it draws from the caller's RNG ----
     // gen_keypair is a provided trait method, generic in Self: running its REAL body for a model KEM whose
     // derive_keypair records its input is sound for every KEM.
-    struct ScriptRng { data: [u8; 8], pos: usize }
+    pub(crate) struct ScriptRng { pub(crate) data: [u8; 8], pub(crate) pos: usize }
     impl rand_core::RngCore for ScriptRng {
         fn next_u32(&mut self) -> u32 { 0 }
         fn next_u64(&mut self) -> u64 { 0 }
@@ -51,7 +51,7 @@ mod verif_kani {
     impl rand_core::CryptoRng for ScriptRng {}
 
     #[derive(Clone, PartialEq, Eq, Debug)]
-    pub struct MKey([u8; 4]);
+    pub struct MKey(pub(crate) [u8; 4]);
     impl Serializable for MKey {
         type OutputSize = generic_array::typenum::U4;
         fn write_exact(&self, buf: &mut [u8]) { buf.copy_from_slice(&self.0); }
@@ -59,7 +59,7 @@ mod verif_kani {
     impl Deserializable for MKey {
         fn from_bytes(b: &[u8]) -> Result<Self, HpkeError> { let mut a = [0u8; 4]; a.copy_from_slice(b); Ok(MKey(a)) }
     }
-    struct ModelKem;
+    pub(crate) struct ModelKem;
     impl Kem for ModelKem {
         type PublicKey = MKey;
         type PrivateKey = MKey;
@@ -73,8 +73,20 @@ mod verif_kani {
             a.copy_from_slice(ikm);
             (MKey(a), MKey(a))
         }
-        fn decap(_: &MKey, _: Option<&MKey>, _: &MKey) -> Result<SharedSecret<Self>, HpkeError> { Err(HpkeError::DecapError) }
-        fn encap<R: CryptoRng + RngCore>(_: &MKey, _: Option<(&MKey, &MKey)>, _: &mut R) -> Result<(SharedSecret<Self>, MKey), HpkeError> { Err(HpkeError::EncapError) }
+        // model KEM: fails exactly when the first byte of the peer key is 0; the secret records which keys were used
+        fn decap(sk: &MKey, pk_s: Option<&MKey>, enc: &MKey) -> Result<SharedSecret<Self>, HpkeError> {
+            if enc.0[0] == 0 { return Err(HpkeError::DecapError); }
+            let mut s = <SharedSecret<Self> as Default>::default();
+            s.0[0] = enc.0[0]; s.0[1] = sk.0[0]; s.0[2] = match pk_s { Some(p) => p.0[0], None => 0xEE };
+            Ok(s)
+        }
+        fn encap<R: CryptoRng + RngCore>(pk_r: &MKey, sender: Option<(&MKey, &MKey)>, rng: &mut R) -> Result<(SharedSecret<Self>, MKey), HpkeError> {
+            if pk_r.0[0] == 0 { return Err(HpkeError::EncapError); }
+            let (sk_e, pk_e) = Self::gen_keypair(rng);
+            let mut s = <SharedSecret<Self> as Default>::default();
+            s.0[0] = pk_r.0[0]; s.0[1] = sk_e.0[0]; s.0[2] = match sender { Some(kp) => kp.0.0[0], None => 0xEE };
+            Ok((s, pk_e))
+        }
     }
     /// two key generations from the same RNG state give the same key = derive_keypair(the Nsk bytes drawn),
     /// no matter how many unrelated key generations happened in between (no hidden state)
